@@ -1784,6 +1784,340 @@ fn exec_cfg(w: &[&str], salt: u64, ex: &mut Exec) -> String {
     format!("cfg ok jobs={} extra={held}", done.load(SeqCst))
 }
 
+/// `dsp <limit> <workers> <in|out>`: ONE blocking pool behind every entry point of a `Dispatcher` built from a default
+/// (`Create`) `ProactorBuilder` with `thread_pool_limit(limit)`: `compio_runtime::spawn_blocking` inside a
+/// dispatched task (the worker runtimes' pool) and `Dispatcher::dispatch_blocking` (the dispatcher's own handle).
+/// `in`: `limit` gated jobs are submitted from inside a worker runtime, the extra one through `dispatch_blocking`;
+/// `out`: the other way round.  While `limit` jobs are held (every pool thread counted and inside its job, so
+/// no spawn race is possible) the extra job must not start (`C17:limit-exceeded`); through `dispatch_blocking` it
+/// must be handed back.  Then everything is released and must complete exactly once.
+fn exec_dsp(w: &[&str], salt: u64, ex: &mut Exec) -> String {
+    use std::sync::atomic::AtomicBool;
+    let (Ok(limit), Ok(workers)) = (w[1].parse::<usize>(), w[2].parse::<usize>()) else { return "bad-op".into() };
+    if limit == 0 || limit > 8 || workers == 0 || workers > 4 || !matches!(w[3], "in" | "out") {
+        return "bad-op".into();
+    }
+    let inner_first = w[3] == "in";
+    let total = limit + 1;
+    let sh = Shared::new(salt);
+    let open = Arc::new(AtomicBool::new(false));
+    let begun = Arc::new(AtomicUsize::new(0));
+    let done = Arc::new(AtomicUsize::new(0));
+    let extra_begun = Arc::new(AtomicBool::new(false));
+    let body = {
+        let (sh, open, begun, done, extra_begun) = (sh.clone(), open.clone(), begun.clone(), done.clone(), extra_begun.clone());
+        move |j: usize, is_extra: bool| {
+            let (sh, open, begun, done, extra_begun) = (sh.clone(), open.clone(), begun.clone(), done.clone(), extra_begun.clone());
+            move || {
+                sh.exec[j].fetch_add(1, SeqCst);
+                let wi = sh.begin(j);
+                if is_extra {
+                    extra_begun.store(true, SeqCst);
+                } else {
+                    begun.fetch_add(1, SeqCst);
+                }
+                let t0 = Instant::now();
+                while !open.load(SeqCst) && t0.elapsed() < Duration::from_secs(30) {
+                    thread::sleep(Duration::from_micros(200));
+                }
+                sh.end(wi, j);
+                done.fetch_add(1, SeqCst);
+            }
+        }
+    };
+    let what = format!("Dispatcher with thread_pool_limit({limit}), {workers} worker runtime(s), {} jobs from inside a worker runtime", if inner_first { "the first" } else { "the extra" });
+    let mut pb = compio_driver::ProactorBuilder::new();
+    pb.thread_pool_limit(limit);
+    let dispatcher = match compio_dispatcher::Dispatcher::builder()
+        .worker_threads(std::num::NonZeroUsize::new(workers).unwrap())
+        .proactor_builder(pb)
+        .build()
+    {
+        Ok(d) => d,
+        Err(e) => {
+            ex.fail("C17:result", format!("{what}: Dispatcher::build failed: {e}"));
+            return "dsp failed".into();
+        }
+    };
+    // jobs submitted from inside a worker runtime: one dispatched task spawns them in order and awaits them
+    let inner = |ids: Vec<(usize, bool)>| {
+        let body = body.clone();
+        dispatcher
+            .dispatch(move || async move {
+                let hs: Vec<_> = ids.into_iter().map(|(j, x)| compio_runtime::spawn_blocking(body(j, x))).collect();
+                for h in hs {
+                    let _ = h.await;
+                }
+            })
+            .is_ok()
+    };
+    // jobs submitted through the dispatcher's own pool handle; returns the number of times it was handed back
+    let outer = |j: usize, x: bool, retry_until: &dyn Fn() -> bool| -> (bool, usize) {
+        let mut f: Box<dyn FnOnce() + Send> = Box::new(body(j, x));
+        let mut back = 0usize;
+        loop {
+            match dispatcher.dispatch_blocking(f) {
+                Ok(_rx) => return (true, back),
+                Err(e) => {
+                    back += 1;
+                    f = e.0;
+                    if retry_until() {
+                        return (false, back);
+                    }
+                    thread::sleep(Duration::from_micros(300));
+                }
+            }
+        }
+    };
+    let t0 = Instant::now();
+    let mut ok = true;
+    if inner_first {
+        ok &= inner((0..limit).map(|j| (j, false)).collect());
+    } else {
+        for j in 0..limit {
+            // one at a time (each waits until the previous one is inside its job: no spawn in flight twice)
+            let (acc, _) = outer(j, false, &|| t0.elapsed() > Duration::from_secs(6));
+            ok &= acc;
+            while begun.load(SeqCst) <= j && t0.elapsed() < Duration::from_secs(6) {
+                thread::sleep(Duration::from_micros(200));
+            }
+        }
+    }
+    while begun.load(SeqCst) < limit && t0.elapsed() < Duration::from_secs(6) {
+        thread::sleep(Duration::from_micros(300));
+    }
+    let mut never_ran = false;
+    if !ok || begun.load(SeqCst) < limit {
+        never_ran = true;
+        ex.fail("C17:job-never-ran", format!("{what}: only {} of {limit} submitted blocking jobs started within 6 s", begun.load(SeqCst)));
+    }
+    // saturated: the extra job through the OTHER entry point must be held back
+    let mut held = "none";
+    let mut handed_back = 0usize;
+    if !never_ran {
+        let mut accepted_at_once = false;
+        if inner_first {
+            let (acc, back) = outer(limit, true, &|| true);
+            handed_back = back;
+            accepted_at_once = acc;
+        } else {
+            ok &= inner(vec![(limit, true)]);
+        }
+        let t1 = Instant::now();
+        while t1.elapsed() < Duration::from_millis(80) && !extra_begun.load(SeqCst) {
+            thread::sleep(Duration::from_millis(1));
+        }
+        if extra_begun.load(SeqCst) || accepted_at_once {
+            held = "ran";
+            ex.fail(
+                "C17:limit-exceeded",
+                format!(
+                    "{what}: limit={limit} observed={} jobs running at once across the entry points sharing the builder: {} accepted and started one more job while {limit} jobs submitted through {} were held inside the pool (every worker counted)",
+                    limit + 1,
+                    if inner_first { "dispatch_blocking" } else { "spawn_blocking in a worker runtime" },
+                    if inner_first { "spawn_blocking in a worker runtime" } else { "dispatch_blocking" },
+                ),
+            );
+        } else {
+            held = "held";
+            if inner_first && handed_back == 0 {
+                ex.fail("C17:dispatch-starved", format!("{what}: the saturated pool neither ran nor handed back the extra job"));
+            }
+        }
+    }
+    open.store(true, SeqCst);
+    if inner_first && held == "held" {
+        let t2 = Instant::now();
+        let (acc, _) = outer(limit, true, &|| t2.elapsed() > Duration::from_secs(8));
+        if !acc {
+            ex.fail("C17:dispatch-starved", format!("{what}: dispatch_blocking was refused for 8 s after every job had been released"));
+        }
+    }
+    let t3 = Instant::now();
+    while done.load(SeqCst) < total && t3.elapsed() < Duration::from_secs(if never_ran { 2 } else { 10 }) {
+        thread::sleep(Duration::from_micros(300));
+    }
+    if done.load(SeqCst) < total && !never_ran {
+        ex.fail("C17:job-never-ran", format!("{what}: only {} of {total} blocking jobs completed after the release", done.load(SeqCst)));
+    }
+    for j in 0..total {
+        let c = sh.exec[j].load(SeqCst);
+        if c != 1 && !never_ran {
+            ex.fail("C17:exactly-once", format!("{what}: job {j} ran {c} times"));
+        }
+    }
+    // join on a helper thread (bounded)
+    let h = helper(move || {
+        compio_runtime::Runtime::new().map(|rt| rt.block_on(dispatcher.join()).is_ok()).unwrap_or(false)
+    });
+    let t4 = Instant::now();
+    while !h.is_finished() && t4.elapsed() < Duration::from_secs(10) {
+        thread::sleep(Duration::from_micros(500));
+    }
+    if h.is_finished() {
+        if !matches!(h.join(), Ok(true)) {
+            ex.fail("C17:result", format!("{what}: Dispatcher::join failed"));
+        }
+    } else {
+        ABANDONED.store(true, SeqCst);
+        ex.fail("C17:dispatch-starved", format!("{what}: Dispatcher::join did not return within 10 s"));
+    }
+    if !abandoned() {
+        wait_alone();
+    }
+    ex.tag(format!("dsp:{}", w[3]));
+    ex.tag(format!("dsp:limit={limit}"));
+    ex.nontrivial = true;
+    format!("dsp ok jobs={} extra={held}", done.load(SeqCst))
+}
+
+/// `rawp <limit> <timeout_ms> <panics>`: jobs that unwind out of `Dispatchable::run` (raw `AsyncifyPool::dispatch`,
+/// as `Dispatcher::dispatch_blocking` / `join` do: no `catch_unwind`) kill their pool thread; the slot of a dead
+/// thread must be given back on that exit path too.  `panics` panicking jobs one after the other (each waited for
+/// until its thread is gone: thread census 0), then `limit` gated jobs: every one must be accepted and start
+/// (`C17:slot-leaked`: live-thread counter > number of live pool threads), one more is handed back, release.
+fn exec_rawp(w: &[&str], salt: u64, ex: &mut Exec) -> String {
+    let (Ok(limit), Ok(tmo), Ok(panics)) = (w[1].parse::<usize>(), w[2].parse::<u64>(), w[3].parse::<usize>()) else { return "bad-op".into() };
+    if limit == 0 || limit > 16 || panics > 64 || tmo < 1000 {
+        return "bad-op".into();
+    }
+    let what = format!("AsyncifyPool::new({limit}, {tmo} ms), {panics} uncaught panicking jobs through the raw dispatch path");
+    let sh = Shared::new(salt);
+    let pool = AsyncifyPool::new(limit, Duration::from_millis(tmo));
+    let crashed = Arc::new(AtomicUsize::new(0));
+    let mut leaked_at: Option<usize> = None;
+    for k in 0..panics {
+        let c = crashed.clone();
+        let f: Box<dyn FnOnce() + Send> = Box::new(move || {
+            c.fetch_add(1, SeqCst);
+            panic!("c17 rawp job {k} panics (uncaught)");
+        });
+        let mut f = f;
+        let t0 = Instant::now();
+        let mut accepted = false;
+        while t0.elapsed() < Duration::from_millis(1500) {
+            match pool.dispatch(f) {
+                Ok(()) => {
+                    accepted = true;
+                    break;
+                }
+                Err(DispatchError(back)) => {
+                    f = back;
+                    thread::sleep(Duration::from_micros(500));
+                }
+            }
+        }
+        if !accepted {
+            leaked_at = Some(k);
+            break;
+        }
+        let t1 = Instant::now();
+        while crashed.load(SeqCst) <= k && t1.elapsed() < Duration::from_secs(5) {
+            thread::sleep(Duration::from_micros(200));
+        }
+        // the thread unwinds and ends
+        let t2 = Instant::now();
+        while wait_quiet() != Some(0) && t2.elapsed() < Duration::from_secs(5) {
+            thread::sleep(Duration::from_micros(200));
+        }
+    }
+    let census = wait_quiet().unwrap_or(usize::MAX);
+    if let Some(k) = leaked_at {
+        ex.fail(
+            "C17:slot-leaked",
+            format!("{what}: after {k} jobs had panicked the pool refused every dispatch for 1.5 s although {census} pool threads are alive (limit {limit}): the slots of the dead threads were not given back"),
+        );
+    }
+    // `limit` gated jobs must all be accepted and run at once
+    let open = Arc::new(std::sync::atomic::AtomicBool::new(false));
+    let begun = Arc::new(AtomicUsize::new(0));
+    let done = Arc::new(AtomicUsize::new(0));
+    let mut accepted = 0usize;
+    let mut refused_extra = false;
+    if leaked_at.is_none() {
+        for j in 0..=limit {
+            let (sh2, open2, begun2, done2) = (sh.clone(), open.clone(), begun.clone(), done.clone());
+            let mut f: Box<dyn FnOnce() + Send> = Box::new(move || {
+                sh2.exec[j].fetch_add(1, SeqCst);
+                let wi = sh2.begin(j);
+                begun2.fetch_add(1, SeqCst);
+                let t0 = Instant::now();
+                while !open2.load(SeqCst) && t0.elapsed() < Duration::from_secs(30) {
+                    thread::sleep(Duration::from_micros(200));
+                }
+                sh2.end(wi, j);
+                done2.fetch_add(1, SeqCst);
+            });
+            let t0 = Instant::now();
+            let mut acc = false;
+            loop {
+                match pool.dispatch(f) {
+                    Ok(()) => {
+                        acc = true;
+                        break;
+                    }
+                    Err(DispatchError(back)) => {
+                        f = back;
+                        if j == limit || t0.elapsed() > Duration::from_millis(1500) {
+                            break;
+                        }
+                        thread::sleep(Duration::from_micros(500));
+                    }
+                }
+            }
+            if j == limit {
+                refused_extra = !acc;
+                if acc {
+                    accepted += 1;
+                }
+                break;
+            }
+            if !acc {
+                let alive = wait_quiet().unwrap_or(usize::MAX);
+                ex.fail(
+                    "C17:slot-leaked",
+                    format!("{what}: job {j} was refused for 1.5 s while only {alive} pool threads are alive (limit {limit}): the live-thread counter is above the number of live pool threads"),
+                );
+                break;
+            }
+            accepted += 1;
+            // serial spawns: wait until this job is inside its thread
+            let t1 = Instant::now();
+            while begun.load(SeqCst) < accepted && t1.elapsed() < Duration::from_secs(5) {
+                thread::sleep(Duration::from_micros(200));
+            }
+        }
+        if accepted >= limit && !refused_extra {
+            ex.fail(
+                "C17:limit-exceeded",
+                format!("{what}: limit={limit} observed={} jobs running at once: one more job was accepted while {limit} jobs were held (single dispatcher, every worker counted)", limit + 1),
+            );
+        }
+    }
+    open.store(true, SeqCst);
+    let t3 = Instant::now();
+    while done.load(SeqCst) < accepted && t3.elapsed() < Duration::from_secs(10) {
+        thread::sleep(Duration::from_micros(300));
+    }
+    if done.load(SeqCst) < accepted {
+        ex.fail("C17:lost-job", format!("{what}: only {} of {accepted} accepted jobs completed", done.load(SeqCst)));
+    }
+    for j in 0..accepted.min(limit + 1) {
+        let c = sh.exec[j].load(SeqCst);
+        if c != 1 {
+            ex.fail("C17:exactly-once", format!("{what}: job {j} ran {c} times"));
+        }
+    }
+    drop(pool);
+    if !abandoned() {
+        wait_alone();
+    }
+    ex.tag("rawp");
+    ex.tag(format!("rawp:limit={limit}"));
+    ex.nontrivial = true;
+    format!("rawp crashed={} ran={} extra={}", crashed.load(SeqCst), done.load(SeqCst), if refused_extra { "busy" } else { "other" })
+}
+
 /// `parked <limit> <timeout_ms> <u|p> <hold_ms> <poll_timeout_ms>`: a pool shared with a foreign dispatcher
 /// whose jobs hold every thread for `hold_ms`; the driver pushes a blocking job meanwhile and then sleeps in
 /// `poll(poll_timeout)`.  The refused submission is retried by the submitting driver itself, so the job must
@@ -2188,7 +2522,7 @@ fn exec_inner(case: &Case) -> Exec {
     let first: Vec<&str> = case.lines.first().map(|l| l.split_whitespace().collect()).unwrap_or_default();
     match first.first().copied() {
         Some("hist") => exec_hist(case, &mut ex),
-        Some("conc") | Some("prx") | Some("burst") | Some("busyfd") | Some("parked") | Some("collect") | Some("cfg") => {
+        Some("conc") | Some("prx") | Some("burst") | Some("busyfd") | Some("parked") | Some("collect") | Some("cfg") | Some("dsp") | Some("rawp") => {
             let salt = checksum(case.name.as_bytes());
             for line in &case.lines {
                 let w: Vec<&str> = line.split_whitespace().collect();
@@ -2200,6 +2534,8 @@ fn exec_inner(case: &Case) -> Exec {
                     Some("parked") if w.len() == 6 => exec_parked(&w, salt, &mut ex),
                     Some("collect") if w.len() == 7 => exec_collect(&w, &mut ex),
                     Some("cfg") if w.len() == 5 => exec_cfg(&w, salt, &mut ex),
+                    Some("dsp") if w.len() == 4 => exec_dsp(&w, salt, &mut ex),
+                    Some("rawp") if w.len() == 4 => exec_rawp(&w, salt, &mut ex),
                     _ => "bad-op".into(),
                 };
                 ex.out.push(out);
@@ -2451,6 +2787,29 @@ fn generate_inner(tier: &str, rng: &mut Rng) -> Vec<Case> {
                         cases.push(Case { name: format!("cfg/{k}"), lines: vec![format!("cfg {via} {limit} {tmo} {dt}")] });
                     }
                 }
+            }
+        }
+    }
+    // 4a'. one pool behind every entry point of a Dispatcher; slots of pool threads killed by uncaught panics
+    {
+        let mut k = 0;
+        for limit in 1..=if thorough { 6 } else { 3 } {
+            for dir in ["in", "out"] {
+                for workers in 1..=if thorough { 3 } else { 1 } {
+                    let workers = if thorough { workers } else { 1 + (limit + k) % 2 };
+                    cases.push(Case { name: format!("dsp/{k}"), lines: vec![format!("dsp {limit} {workers} {dir}")] });
+                    k += 1;
+                }
+            }
+        }
+        let mut k = 0;
+        for limit in 1..=if thorough { 8 } else { 3 } {
+            for panics in [0, 1, limit, limit + 1 + rng.range(0, 3) as usize] {
+                if panics == 1 && limit == 1 {
+                    continue;
+                }
+                cases.push(Case { name: format!("rawp/{k}"), lines: vec![format!("rawp {limit} {} {panics}", 1000 + 1000 * rng.range(0, 5))] });
+                k += 1;
             }
         }
     }
